@@ -130,6 +130,7 @@ type retPoint struct {
 	guard *Term
 	vals  []*SV
 	st    *State
+	pos   token.Pos
 }
 
 type frameCtx struct {
@@ -225,7 +226,7 @@ func (u *Unit) runBody(fn *ssa.Function, args []*SV, freeVars []*SV, st0 *State,
 				for _, r := range t.Results {
 					vals = append(vals, u.val(fc, r))
 				}
-				rets = append(rets, retPoint{pc, vals, st})
+				rets = append(rets, retPoint{pc, vals, st, t.Pos()})
 				terminated = true
 			case *ssa.Panic:
 				if !spec {
